@@ -20,10 +20,11 @@ def main(argv):
     mod = importlib.import_module('vf.props.' + prop.lower())
     ctx = Ctx(L, prop, tier, seed, shard)
     ctx.extra['nshards'] = int(nshards)
-    budget = None
-    if getattr(mod, 'STEP_BUDGET', None):
-        budget = StepBudget(L, mod.STEP_BUDGET)
-    mon = Monitor(ctx, step_budget=budget)
+    judged = bool(getattr(mod, 'STEP_BUDGET', None))
+    # the line-counting budget costs 2-4x, so only the checks that judge termination (C09-C11) install it; the others
+    # are protected against hangs by the per-case wall-clock alarm of run_cases (never a verdict)
+    budget = StepBudget(L, mod.STEP_BUDGET) if judged else None
+    mon = Monitor(ctx, step_budget=budget, budget_judged=judged)
     mon.contracts = mod.contracts(ctx, mon)
     mon.install()
     ctx.extra['lib_file'] = L.core.__file__
@@ -35,7 +36,7 @@ def main(argv):
     mon.active = False
     d = ctx.dump()
     d['wall_s'] = time.time() - t0
-    if budget is not None:
+    if judged:
         d['step_budget'] = budget.budget
     tmp = out + '.tmp'
     with open(tmp, 'w') as f:
